@@ -52,8 +52,18 @@ THEOREM_NOTES = {
         "an added level are replaced before any pop); at-most-once is clause (2) of C08_single_process_disjoint",
     "C08_seeded_repeatable": "for a GIVEN schedule/history shared by both runs; immediate from the model (first instruction = seed). "
         "Not by itself the 'bit for bit' clause",
+    "C08_engines_forget_state": "not definitional: the run starts from an arbitrary state of the process object (any generator "
+        "state, deques holding arbitrary leftover rows); equality of events and samples is proved through the discipline lin "
+        "(pre_computation replaces the deques before the first pop); C08_leftover_rows_matter_refuted shows an undisciplined "
+        "instruction list for which it fails.  Hypothesis: same deque creation counter (the tracer counts from the run's start)",
+    "C08_seeded_adaptive_forgets_state": "the same for arbitrary adaptive decisions D taken within the discipline (garun stops at "
+        "an instruction that violates it)",
+    "C08_pools_jump_mode_disjoint": "successive pools of one run (one per level and pass in the multilevel engine), jump-time "
+        "mode: disjointness under NoDup of all (pid, clock) pairs of the run; that the OS does not reuse a pid for two workers "
+        "within one second is a hypothesis, not proved; fixed-date pools are refuted anyway (F-C08-3)",
     "C08_std_seeded_repeatable_derived": "standard engine: the schedule is derived by the run from the values (val : position -> "
-        "value and nxt : values seen -> next draw are universally quantified); two seeded runs from different ambient states derive "
+        "value and nxt : values seen -> next draw are universally quantified); two seeded runs from two ARBITRARY states (leftover "
+        "deques included) derive "
         "the same schedule, events and sample values; before the fix they do not (C08_std_derived_orig_refuted).  'Bit for bit' "
         "additionally rests on: the real generators are deterministic functions of (seed, index) and float arithmetic is "
         "deterministic -- monitored by the oracle's two runs per seeded configuration, compared bit for bit",
@@ -73,11 +83,11 @@ THEOREM_NOTES = {
     "C08_preseed_draws_refuted": "tree before the fix: commits (F-C08-1), kept as the machine-checked witness of the fix",
     "C08_reseed_per_level_refuted": "tree before the fix: commits (F-C08-2): seeded, and unseeded with two calls in the same second",
     "C08_seed_zero_refuted": "tree before the fix: commits (F-C08-4)",
-    "not_covered": "SDE and series processes and max_step_epsilon simulators are not traced; several product dates with a copula "
-        "process raise in MCLevyCopulaSimulationFixedTimes.project (F-C15-2), so dimension 2 is traced with one date and in "
-        "jump-time mode only; the coupling decisions of the copula coupling (u <= probability inside __coupling_state) are not "
+    "not_covered": "series-representation processes and antithetic paths (not implemented by create_path) are not traced; the max-step "
+        "simulators are reached through harness subclasses that hand max_step_epsilon to the public initialisation() and through "
+        "the SDE processes; the coupling decisions of the copula coupling (u <= probability inside __coupling_state) are not "
         "probed; the multilevel engine with a pool is oracle-only; the actual chunking of a pool is whatever the OS schedules "
-        "(the theorems quantify over all chunkings, a run observes one); nb_of_processes=None runs in the thorough tier only",
+        "(the theorems quantify over all chunkings, a run observes one)",
 }
 LEVEL_TEXT = ("Proof: Coq theorems (closed under the global context) about an executable model of the generators (abstract "
               "positions), the pre-drawn deques and the instruction sequences of both engines: for nb_of_processes = 1, every "
@@ -172,6 +182,12 @@ def env():
             df = lambda t: np.exp(-0.02 * t)  # noqa: E731
             return Product(payoff_underlying=DefaultTime(default_level=-0.05),
                            payoff=CDS(recovery_rate=0.4, spread=0.01, maturity=0.5, discounting=df), maturity=0.5)
+        if kind in ("swpt1", "swpt2"):
+            from rpylib.product.payoff import Swaption
+            from rpylib.product.underlying import Libors
+            mdl = model("sde1" if kind == "swpt1" else "sde2")
+            return Product(payoff_underlying=Libors(), payoff=Swaption(underlying_rates=mdl.x0, deltas=mdl.deltas, strike=np.average(mdl.x0)),
+                           maturity=mdl.tenors[0], notional=100.0)
         spots = [100.0, 100.0]
         if kind == "cfwd1":
             return Product(payoff_underlying=MaximumOfPerformances(spots), payoff=Forward(strike=1.0), maturity=0.25)
@@ -183,7 +199,14 @@ def env():
             return Product(payoff_underlying=MaximumOfPerformances(spots), payoff=pay, maturity=0.5)
         raise ValueError(kind)
 
+    from rpylib.model.utils import create_levy_model, create_levy_forward_market_model, create_levy_forward_market_model_copula
+
     def model(name):
+        if name == "sde1":       # Levy forward market model driven by a 1-d Levy process (SDE processes: max-step simulators)
+            return create_levy_forward_market_model(create_levy_model(ModelType.HEM)(intensity=1.5))
+        if name == "sde2":       # ... driven by a 2-d Levy copula
+            return create_levy_forward_market_model_copula([create_levy_model(ModelType.HEM)(intensity=1.0),
+                                                            create_levy_model(ModelType.MERTON)(intensity=1.0)])
         if name == "hem+merton":
             ms = [create_exponential_of_levy_model(ModelType.HEM)(intensity=4), create_exponential_of_levy_model(ModelType.MERTON)(intensity=4)]
             return create_levy_copula_model(models=ms, copula=create_clayton_copula())
@@ -194,8 +217,27 @@ def env():
     return _ENV
 
 
-MODE = {"fwd1": (True, 1), "fwd3": (True, 3), "cds": (False, 1), "cfwd1": (True, 1), "cfwd3": (True, 3), "cjmp": (False, 1)}
+MODE = {"fwd1": (True, 1), "fwd3": (True, 3), "cds": (False, 1), "cfwd1": (True, 1), "cfwd3": (True, 3), "cjmp": (False, 1),
+        "swpt1": (False, 1), "swpt2": (False, 1)}
 CONTINUOUS = {"fwd1", "fwd3", "cfwd1", "cfwd3", "cjmp"}        # payoffs whose value determines the path (no ties between paths)
+EPS = 0.125       # maximum time step handed to the *MaximumStep simulators by the harness subclasses
+
+
+def mode_of(cfg):
+    """(fixed-date mode?, number of product dates): the max-step simulators (proc '*-eps', SDE processes) are jump-time simulators"""
+    if cfg["proc"].endswith("-eps") or cfg["proc"].startswith("sde"):
+        return (False, MODE[cfg["prod"]][1])
+    return MODE[cfg["prod"]]
+
+
+def with_eps(cls):
+    """subclass handing max_step_epsilon to the public `initialisation` (the engines call it without one): reaches the
+    SimulationMaximumStep / MCSimulationMaximumStep / MCLevyCopulaSimulationMaximumStep / Coupling*SimulationMaximumStep classes"""
+    class Eps(cls):
+        def initialisation(self, product, max_step_epsilon=None):
+            return super().initialisation(product, max_step_epsilon=EPS if max_step_epsilon is None else max_step_epsilon)
+    Eps.__name__ = Eps.__qualname__ = cls.__name__ + "Eps"
+    return Eps
 
 
 def set_ambient(E, rng):
@@ -207,27 +249,51 @@ def set_ambient(E, rng):
 
 def sampling_method(proc):
     from rpylib.distribution.sampling import SamplingMethod as SM
+    proc = proc[:-4] if proc.endswith("-eps") else proc
     return {"inv": SM.INVERSION, "bst1d": SM.BINARYSEARCHTREEADAPTED1D, "alias": SM.ALIAS, "table": SM.TABLE,
-            "bst": SM.BINARYSEARCHTREE, "huffman": SM.HUFFMANNTREE, "cop-bst": SM.BINARYSEARCHTREEADAPTED, "cop-inv": SM.INVERSION}[proc]
+            "bst": SM.BINARYSEARCHTREE, "huffman": SM.HUFFMANNTREE, "cop-bst": SM.BINARYSEARCHTREEADAPTED, "cop-inv": SM.INVERSION,
+            "sde-bst1d": SM.BINARYSEARCHTREEADAPTED1D, "sde-inv": SM.INVERSION, "sde-cop": SM.BINARYSEARCHTREEADAPTED}[proc]
 
 
 def dim_of(cfg):
-    return 2 if cfg["proc"].startswith("cop-") else 1
+    return 2 if (cfg["proc"].startswith("cop-") or cfg["proc"] == "sde-cop") else 1
 
 
 def make_process(E, proc, model_name):
     """exact Levy simulation, 1-d CTMC with every sampler of the factory (TABLE draws from Python's `random`), 2-d CTMC of a
-    Levy copula model"""
+    Levy copula model, the same with a maximum time step ('-eps'), Markov chain of a Levy-driven SDE ('sde-*')"""
     from rpylib.process.levyprocess import LevyProcess
     from rpylib.process.markovchain.markovchain import MarkovChainProcess
     from rpylib.process.markovchain.markovchainlevycopula import MarkovChainLevyCopula
+    from rpylib.process.markovchain.markovchainsde import MarkovChainSDE
     from rpylib.grid.spatial import CTMCUniformGrid
     mdl = E["model"](model_name)
-    if proc == "levy":
-        return LevyProcess(mdl)
-    if proc.startswith("cop-"):
-        return MarkovChainLevyCopula(mdl, CTMCUniformGrid(h=0.1, model=mdl), sampling_method(proc))
-    return MarkovChainProcess(mdl, sampling_method(proc), CTMCUniformGrid(h=0.1, model=mdl))
+    eps = proc.endswith("-eps")
+    wrap = with_eps if eps else (lambda c: c)
+    base = proc[:-4] if eps else proc
+    if base == "levy":
+        return wrap(LevyProcess)(mdl)
+    if base.startswith("sde"):
+        return MarkovChainSDE(model=mdl, method=sampling_method(proc), grid=CTMCUniformGrid(h=0.1, model=mdl))
+    if base.startswith("cop-"):
+        return wrap(MarkovChainLevyCopula)(mdl, CTMCUniformGrid(h=0.1, model=mdl), sampling_method(proc))
+    return wrap(MarkovChainProcess)(mdl, sampling_method(proc), CTMCUniformGrid(h=0.1, model=mdl))
+
+
+def make_coupling(E, proc, model_name):
+    from rpylib.process.coupling.couplingmarkovchain import CouplingMarkovChain
+    from rpylib.process.coupling.couplinglevycopula import CouplingProcessLevyCopula
+    from rpylib.process.coupling.couplingsde import CouplingSDE
+    from rpylib.grid.spatial import CTMCUniformGrid
+    mdl = E["model"](model_name)
+    eps = proc.endswith("-eps")
+    wrap = with_eps if eps else (lambda c: c)
+    base = proc[:-4] if eps else proc
+    if base.startswith("sde"):
+        return CouplingSDE(model=mdl, grid=CTMCUniformGrid(h=0.1, model=mdl), method=sampling_method(proc))
+    if base.startswith("cop-"):
+        return wrap(CouplingProcessLevyCopula)(mdl, CTMCUniformGrid(h=0.1, model=mdl), sampling_method(proc))
+    return wrap(CouplingMarkovChain)(model=mdl, method=sampling_method(proc), grid=CTMCUniformGrid(h=0.1, model=mdl))
 
 
 def run_std(E, cfg, rng):
@@ -235,7 +301,11 @@ def run_std(E, cfg, rng):
     from rpylib.montecarlo.configuration import ConfigurationStandard
     from rpylib.montecarlo.standard.engine import Engine
     np, TR = E["np"], E["TR"]
-    conf = ConfigurationStandard(mc_paths=cfg["n"], seed=cfg["seed"], nb_of_processes=cfg["nproc"])
+    extra = {}
+    if cfg.get("cv"):       # control variates and spot statistics switched on: must not change the use of the generators
+        from rpylib.product.product import ControlVariates
+        extra = dict(control_variates=ControlVariates([E["product"](cfg["prod"])], [1.0]), activate_spot_statistics=True)
+    conf = ConfigurationStandard(mc_paths=cfg["n"], seed=cfg["seed"], nb_of_processes=cfg["nproc"], **extra)
     eng = Engine(conf, make_process(E, cfg["proc"], cfg["model"]))
     E["CFG"].time = FakeTime([cfg["T"]])
     if cfg.get("pid") and cfg["nproc"] == 1:
@@ -281,12 +351,7 @@ def run_ml(E, cfg, rng):
     from rpylib.distribution.sampling import SamplingMethod
     from rpylib.grid.spatial import CTMCUniformGrid
     np, TR = E["np"], E["TR"]
-    mdl = E["model"](cfg["model"])
-    if cfg["proc"].startswith("cop-"):
-        from rpylib.process.coupling.couplinglevycopula import CouplingProcessLevyCopula
-        cp = CouplingProcessLevyCopula(mdl, CTMCUniformGrid(h=0.1, model=mdl), sampling_method(cfg["proc"]))
-    else:
-        cp = CouplingMarkovChain(model=mdl, method=sampling_method(cfg["proc"]), grid=CTMCUniformGrid(h=0.1, model=mdl))
+    cp = make_coupling(E, cfg["proc"], cfg["model"])
     script = Script(cfg.get("ns", []), cfg.get("verdicts", []))
     conf = ConfigurationMultiLevel(convergence_rates=ConvergenceRates(1.0, 1.0, 1.0),
                                    convergence_criteria=ConvergenceCriteria(script.criteria, script.compute_mc_paths),
@@ -317,7 +382,7 @@ def sched_lit(sc):
 
 
 def mode_lit(cfg):
-    fixed, nb = MODE[cfg["prod"]]
+    fixed, nb = mode_of(cfg)
     return f"(mkMode {blit(fixed)} {zlit(nb)} {zlit(dim_of(cfg))})"
 
 
@@ -365,20 +430,42 @@ Definition chk_pool (r : list ev * list (list ev) * list sample) (ex : list (lis
 
 
 # ----------------------------------------------------------------------------------------- oracle
-def chunk_prediction(workers):
-    """rows every chunk of a pool pops under the faithful model of the pool (every chunk unpickles its own copy of the
-    parent's deques and pops them from the left): Counter of row tags.  Uses only the arrival records of the copies
-    (creation number, first remaining row) and the number of samples of each chunk."""
+def rows_from_chunks(chunk_records):
+    """copy-per-chunk model of the pool: a chunk of `size` samples pops rows first..first+size-1 of every deque copy that
+    arrived with it.  chunk_records = [[size, [[cid, rows, first], ...]], ...]  ->  Counter of row tags"""
     import collections
     pred = collections.Counter()
+    for size, arrivals in chunk_records:
+        for cid, n, first in arrivals:
+            for r in range(first, first + min(size, n)):
+                pred[(cid, r)] += 1
+    return pred
+
+
+def unpopped_from_history(history):
+    """rows the pass structure of an adaptive price() leaves unpopped: history = [[rows, kind], ...] of the pre_computation
+    calls in order (each creates two deques); kinds 'init' (initialisation()) and 'add' (next_level of an added level) are
+    replaced before any pop"""
+    out, cid = [], 1
+    for n, kind in history:
+        if kind in ("init", "add"):
+            out += [[c, r] for c in (cid, cid + 1) for r in range(n)]
+        cid += 2
+    return sorted(out)
+
+
+def chunk_records_of(workers):
+    recs = []
     for c in workers.values():
         starts = list(c.chunk_starts)
         for j, a in enumerate(starts):
             size = (starts[j + 1] if j + 1 < len(starts) else len(c.samples)) - a
-            for cid, n, first in c.chunk_arrivals[j]:
-                for r in range(first, first + min(size, n)):
-                    pred[(cid, r)] += 1
-    return pred
+            recs.append([size, [list(x) for x in c.chunk_arrivals[j]]])
+    return recs
+
+
+def chunk_prediction(workers):
+    return rows_from_chunks(chunk_records_of(workers))
 
 
 def oracle(res, cfg, can, workers, stats, continuous):
@@ -408,12 +495,15 @@ def oracle(res, cfg, can, workers, stats, continuous):
                 seen.setdefault(tg, []).append((who, k, s.get("it")))
     dup = {tg: v for tg, v in seen.items() if len(v) > 1}
     observed = collections.Counter({tg: len(v) for tg, v in seen.items()})
-    explained = bool(multi and dup and observed == chunk_prediction(workers))
+    records = chunk_records_of(workers) if multi else []
+    explained = bool(multi and dup and observed == rows_from_chunks(records))
+    evidence = dict(rows_observed=sorted([c_, r_, n_] for (c_, r_), n_ in observed.items()), chunk_records=records) if multi else {}
+    tag_of = {p: tg for tg, ps in can.rowpos.items() for p in ps}
     if dup:
         tg = sorted(dup)[0]
         viol("a pre-drawn row is consumed by more than one sample" + (" (worker processes pop copies of the same deque)" if multi else ""),
              "F-C08-3" if explained else None, tag=list(tg), consumers=[list(map(str, x)) for x in dup[tg]][:6], rows_shared=len(dup),
-             explained_by_copy_per_chunk=explained)
+             explained_by_copy_per_chunk=explained, **evidence)
     # generator states that recur after having produced variates
     for kind in ("np", "py"):
         first, hit = {}, None
@@ -443,7 +533,8 @@ def oracle(res, cfg, can, workers, stats, continuous):
     if hit_row:
         f = ("F-C08-3" if explained else None) if multi else ("F-C08-2" if len(can.seeds) > 1 else None)
         viol("two samples are generated from the same pre-drawn variate", f, position=list(hit_row[0]),
-             samples=[list(map(str, hit_row[1])), list(map(str, hit_row[2]))], explained_by_copy_per_chunk=explained)
+             samples=[list(map(str, hit_row[1])), list(map(str, hit_row[2]))], explained_by_copy_per_chunk=explained,
+             row_of_position=list(tag_of.get(hit_row[0], (0, -1))), **evidence)
     if hit_other:
         f = None if multi else ("F-C08-2" if len(can.seeds) > 1 else None)
         viol("two samples are generated from the same variate", f, position=list(hit_other[0]),
@@ -484,17 +575,20 @@ def oracle(res, cfg, can, workers, stats, continuous):
             if not rep:
                 continue
             v = sorted(rep, key=lambda x: -len(rep[x]))[0]
+            groups = []
             if multi:
                 ok = explained
                 for val, ix in rep.items():
                     sms = [sample_of.get(key_of.get((lvl, i))) for i in ix]
+                    groups.append([[list(t) for t in x["rows"]] if x is not None else None for x in sms])
                     if any(x is None for x in sms) or len({tuple(x["rows"]) for x in sms}) != 1:
                         ok = False
                 f = "F-C08-3" if ok else None
             else:
                 f = "F-C08-2" if len(can.seeds) > 1 else None
             viol("identical sample values stored in the statistics of one level", f, level=lvl, value=list(v), indices=rep[v][:8],
-                 distinct_values=len(d), samples=sum(len(ix) for ix in d.values()), explained_by_copy_per_chunk=(f == "F-C08-3"))
+                 distinct_values=len(d), samples=sum(len(ix) for ix in d.values()), explained_by_copy_per_chunk=(f == "F-C08-3"),
+                 groups=groups[:40], **evidence)
     # seeding discipline of a single-process run: exactly one seed, before the first draw
     if not multi:
         want = cfg["seed"] if cfg["seed"] is not None else predicted_t(cfg["T"][0] if isinstance(cfg["T"], list) else cfg["T"], cfg.get("pid"))
@@ -523,28 +617,43 @@ def oracle(res, cfg, can, workers, stats, continuous):
 def unpopped_oracle(res, cfg, can, expected=None):
     """single-process run: rows pre-drawn and never popped.  None may remain for the standard engine and the constant
     multilevel run; the adaptive price() leaves exactly the rows of initialisation() and of next_level() of the added
-    levels (finding F-C08-5, `expected` = those rows as the pass structure predicts them)"""
+    levels (finding F-C08-5; expected = (those rows, the history of pre_computation calls they are computed from))"""
     created = {(e[1], r) for e in can.events if e[0] == 2 for r in range(e[2])}
     popped = {(e[1], e[2]) for e in can.events if e[0] == 3}
-    left = sorted(created - popped)
+    left = sorted([c, r] for c, r in created - popped)
     if not left:
         return
-    deqs = sorted({c for c, _ in left})
-    as_expected = expected is not None and left == sorted(expected)
+    history = None if expected is None else expected[1]
+    as_expected = history is not None and left == unpopped_from_history(history)
     res.violation("pre-drawn rows are never consumed (drawn and thrown away)", {
         "finding": "F-C08-5" if as_expected else None, "kind": "trace", "config": dict(cfg, pid=cfg.get("pid") or os.getpid()),
-        "unpopped_rows": len(left), "unpopped_deques": deqs, "as_the_model_predicts": as_expected,
-        "expected_unpopped_deques": None if expected is None else sorted({c for c, _ in expected})})
+        "unpopped": left[:400], "unpopped_rows": len(left), "history": history, "as_the_model_predicts": as_expected})
 
 
 def matches_known(v, known):
-    """a listed finding only explains the violations the faithful model predicts"""
+    """a listed finding explains a violation only if the rows recorded in the violation are exactly those the faithful model
+    predicts; the prediction is recomputed here from the recorded chunk structure / pre_computation history, not read from a flag"""
+    import collections
     r = v["replay"]
     c = r.get("config", {})
-    if known["id"] == "F-C08-3":
-        return c.get("nproc", 1) != 1 and MODE.get(c.get("prod"), (False,))[0] and r.get("explained_by_copy_per_chunk") is True
-    if known["id"] == "F-C08-5":
-        return c.get("engine") == "mlp" and c.get("nproc", 1) == 1 and r.get("as_the_model_predicts") is True
+    try:
+        if known["id"] == "F-C08-3":
+            if c.get("nproc", 1) == 1 or not mode_of(c)[0]:
+                return False
+            obs = collections.Counter({(a, b): n for a, b, n in r["rows_observed"]})
+            if not obs or obs != rows_from_chunks(r["chunk_records"]) or max(obs.values()) < 2:
+                return False
+            if "row_of_position" in r and obs.get(tuple(r["row_of_position"]), 0) < 2:
+                return False
+            if "groups" in r and not all(g and None not in g and len({json.dumps(m) for m in g}) == 1 for g in r["groups"]):
+                return False
+            return True
+        if known["id"] == "F-C08-5":
+            if c.get("engine") != "mlp" or c.get("nproc", 1) != 1 or not mode_of(c)[0] or not r.get("history"):
+                return False
+            return len(r["unpopped"]) == r["unpopped_rows"] > 0 and r["unpopped"] == unpopped_from_history(r["history"])
+    except (KeyError, TypeError, ValueError):
+        return False
     return False
 
 
@@ -610,18 +719,20 @@ def mlp_case(cfg, evs, can, script):
         pos += 1
         return toks[pos - 1][1]
 
-    fixed = MODE[cfg["prod"]][0]
+    fixed = mode_of(cfg)[0]
     cid = [1]
+    hist = []              # the pre_computation calls of the run: (rows, kind) -- the pass structure F-C08-5 is matched against
     wasted = []            # rows the pass structure says are pre-drawn and never popped (F-C08-5)
 
-    def deques(n, waste):
+    def deques(n, waste, kind):
         if fixed:
+            hist.append([n, kind])
             if waste:
                 wasted.extend((c, r) for c in (cid[0], cid[0] + 1) for r in range(n))
             cid[0] += 2
 
     n0 = expect_pre()
-    deques(n0, True)
+    deques(n0, True, "init")
     L, cr = cfg["L0"], 1
     calls = list(script.calls)
     ci = 0
@@ -635,10 +746,10 @@ def mlp_case(cfg, evs, can, script):
             if cr <= lvl:
                 if expect_pre() != 0:
                     raise ValueError("history parse: next_level(0) expected for a level created in the first pass")
-                deques(0, False)
+                deques(0, False, "next_level0")
                 cr += 1
             n = expect_pre()
-            deques(n, False)
+            deques(n, False, "level")
             cur = []
             for _ in range(n):
                 if pos >= len(toks) or toks[pos][0] != "s" or toks[pos][1] != lvl:
@@ -655,12 +766,12 @@ def mlp_case(cfg, evs, can, script):
                 L += 1
                 cr += 1
                 add = expect_pre()
-                deques(add, True)
+                deques(add, True, "add")
         passes.append((levels, add))
     if pos != len(toks):
         raise ValueError(f"history parse: {len(toks) - pos} trailing tokens")
     plit = lst([f"(mkPass {lst([lst([sched_lit(sc) for sc in lv]) for lv in levels])} {opt(add, zlit)})" for levels, add in passes])
-    return f"(({opt(cfg['seed'], zlit)}, {zlit(t)}, {mode_lit(cfg)}, {zlit(n0)}, {plit}), {expected_lit(can)})", passes, wasted
+    return f"(({opt(cfg['seed'], zlit)}, {zlit(t)}, {mode_lit(cfg)}, {zlit(n0)}, {plit}), {expected_lit(can)})", passes, (wasted, hist)
 
 
 def pool_case(cfg, parent, workers_can):
@@ -706,18 +817,37 @@ def gen_cfgs(rng, tier):
                 for seed in seeds:
                     out["std"].append(dict(engine="std", prod=prod, model=model, proc=proc, n=rng.choice([1, 2, 3, 5, 6, 8] if big else [1, 2, 3, 5, 6]),
                                            seed=seed, nproc=1, T=T()))
-        for prod in ("cfwd1", "cjmp"):      # several dates: MCLevyCopulaSimulationFixedTimes.project raises (F-C15-2)
+        for prod in ("cfwd1", "cfwd3", "cjmp"):
             for model, proc in COP_PROCS:
                 for seed in (None, 9):
                     out["std"].append(dict(engine="std", prod=prod, model=model, proc=proc, n=rng.choice([2, 3, 5]), seed=seed, nproc=1, T=T()))
     out["std"].append(dict(engine="std", prod="fwd1", model="hem", proc="levy", n=0, seed=5, nproc=1, T=1700000000))
+    # the four max-step simulators (harness subclasses hand max_step_epsilon to `initialisation`) and the SDE processes
+    EPS_STD = [("fwd1", "hem", "levy-eps"), ("fwd3", "merton", "levy-eps"), ("cds", "hem", "inv-eps"), ("fwd3", "merton", "bst1d-eps"),
+               ("fwd1", "hem", "table-eps"), ("cfwd1", "hem+merton", "cop-inv-eps"), ("cfwd3", "hem+merton", "cop-bst-eps"),
+               ("swpt1", "sde1", "sde-bst1d"), ("swpt1", "sde1", "sde-inv"), ("swpt2", "sde2", "sde-cop")]
+    for rep in range(3 if big else 1):
+        for prod, model, proc in EPS_STD:
+            for seed in (None, 17):
+                out["std"].append(dict(engine="std", prod=prod, model=model, proc=proc, n=rng.choice([2, 3, 4]), seed=seed, nproc=1, T=T()))
+    # control variates and spot statistics switched on
+    for prod, model, proc in (("fwd1", "hem", "levy"), ("fwd3", "merton", "inv"), ("cds", "hem", "bst1d")):
+        out["std"].append(dict(engine="std", prod=prod, model=model, proc=proc, n=4, seed=rng.choice([None, 7]), nproc=1, T=T(), cv=True))
+    EPS_ML = [("fwd1", "hem", "inv-eps"), ("fwd3", "merton", "bst1d-eps"), ("cds", "hem", "alias-eps"), ("cfwd1", "hem+merton", "cop-inv-eps"),
+              ("swpt1", "sde1", "sde-bst1d"), ("swpt2", "sde2", "sde-cop")]
+    for rep in range(3 if big else 1):
+        for prod, model, proc in EPS_ML:
+            out["mlc"].append(dict(engine="mlc", prod=prod, model=model, proc=proc, n0=rng.choice([2, 3]), L0=1, Lmax=rng.choice([1, 2]),
+                                   seed=rng.choice([None, 11]), nproc=1, T=T()))
+            out["mlp"].append(dict(engine="mlp", prod=prod, model=model, proc=proc, n0=2, L0=1, Lmax=2, seed=rng.choice([None, 13]), nproc=1,
+                                   T=T(), ns=[[3, 3, 3], [4, 3, 3], [4, 4, 3, 2]], verdicts=[False, True]))
     for rep in range(4 if big else 1):
         for prod in ("fwd1", "fwd3", "cds"):
             for model, proc in ML_PROCS:
                 for seed in (None, 0, 11):
                     out["mlc"].append(dict(engine="mlc", prod=prod, model=model, proc=proc, n0=rng.choice([1, 2, 3]), L0=1,
                                            Lmax=rng.choice([1, 2, 3]), seed=seed, nproc=1, T=T()))
-        for prod in ("cfwd1", "cjmp"):      # several dates: MCLevyCopulaSimulationFixedTimes.project raises (F-C15-2)
+        for prod in ("cfwd1", "cfwd3", "cjmp"):
             for model, proc in COP_PROCS:
                 out["mlc"].append(dict(engine="mlc", prod=prod, model=model, proc=proc, n0=rng.choice([2, 3]), L0=1, Lmax=rng.choice([1, 2]),
                                        seed=rng.choice([None, 11]), nproc=1, T=T()))
@@ -738,7 +868,7 @@ def gen_cfgs(rng, tier):
                     ns, verdicts = history(n0)
                     out["mlp"].append(dict(engine="mlp", prod=prod, model=model, proc=proc, n0=n0, L0=L0, Lmax=L0 + rng.choice([0, 1, 2]),
                                            seed=seed, nproc=1, T=T(), ns=ns, verdicts=verdicts))
-        for prod in ("cfwd1", "cjmp"):      # several dates: MCLevyCopulaSimulationFixedTimes.project raises (F-C15-2)
+        for prod in ("cfwd1", "cfwd3", "cjmp"):
             for model, proc in COP_PROCS:
                 L0, n0 = 1, rng.choice([2, 3])
                 ns, verdicts = history(n0)
@@ -760,8 +890,9 @@ def gen_cfgs(rng, tier):
         model, proc = ("hem+merton", "cop-inv") if prod == "cjmp" else ("hem", "levy")
         out["pool"].append(dict(engine="std", prod=prod, model=model, proc=proc, n=9, seed=None, nproc=nproc, T=COLLISION_T))
     out["pool"].append(dict(engine="std", prod="cfwd1", model="hem+merton", proc="cop-bst", n=5, seed=None, nproc=2, T=T()))
-    if big:
-        out["pool"].append(dict(engine="std", prod="cds", model="hem", proc="levy", n=20, seed=None, nproc=None, T=COLLISION_T))
+    out["pool"].append(dict(engine="std", prod="cds", model="hem", proc="levy", n=20, seed=None, nproc=None, T=COLLISION_T))    # all cores
+    out["pool"].append(dict(engine="std", prod="fwd1", model="hem", proc="inv", n=6, seed=None, nproc=2, T=T(), cv=True))
+    out["pool"].append(dict(engine="std", prod="fwd3", model="merton", proc="bst1d-eps", n=6, seed=None, nproc=2, T=COLLISION_T))
     # multilevel engine with pools (compute_level_l builds one pool per level and pass): oracle only
     out["mlpool"] = [dict(engine="mlc", prod="fwd1", model="hem", proc="inv", n0=4, L0=1, Lmax=1, seed=None, nproc=2, T=1700000001),
                      dict(engine="mlc", prod="cds", model="hem", proc="inv", n0=3, L0=1, Lmax=1, seed=5, nproc=2, T=COLLISION_T),
